@@ -71,6 +71,10 @@ def gen(tier, seed, shard, nshards):
         p = int(rng.integers(2, 9))
         out = gmat.random_dag_masks(rng, p)
         W = gmat.weighted(rng, out, "signed" if k % 2 else "int")
+        if k % 10 == 0:
+            W = W.astype((np.int8, np.int16, np.int32, np.float32)[(k // 10) % 4])      # narrow weight dtypes (values fit)
+        elif k % 10 == 5:
+            W = (W != 0)                                                             # 0/1 adjacency as bool: unit weights
         means = np.round(rng.uniform(-3, 3, p), 3)
         variances = np.round(rng.uniform(0.1, 4, p), 3)
         if k % 4 == 0:     # other units: noise variances down to 1e-18 / up to 1e12
@@ -196,10 +200,27 @@ def judge(family, case, rec):
                 continue
             coefs, intercept, mse, tol = r
             ctx = {"y": y, "S": S}
-            # independence of the means
+            # independence of the means (a twin with other means; now and then the very same object gets new means
+            # assigned, as the library's own tests do, and is asked again)
             try:
-                c2, _ = shifted.regress(y, list(S))
-                m2 = float(shifted.mse(y, list(S)))
+                if (y + len(S)) % 4 == 0:
+                    old_mean = dist.mean
+                    dist.mean = np.asarray(shifted.mean).copy()
+                    try:
+                        c2, i2 = dist.regress(y, list(S))
+                        m2 = float(dist.mse(y, list(S)))
+                        b2 = [X.F(float(v)) for v in c2]
+                        ires2 = abs(X.F(float(dist.mean[y])) - sum((b2[j] * X.F(float(dist.mean[j])) for j in range(p)), X.F(0)) - X.F(float(i2)))
+                        isc2 = abs(float(dist.mean[y])) + float(np.sum(np.abs(np.asarray(c2, dtype=float)) * np.abs(np.asarray(dist.mean, dtype=float))))
+                        rec.count("history:means-reassigned-on-same-object")
+                        if float(ires2) > 1e3 * EPS * isc2 + 1e-300:
+                            rec.violation("C06:stale-intercept-after-new-means", family, sub,
+                                          "after assigning new means to the same distribution object the intercept no longer centres the residual (off by %.3g)" % float(ires2), **ctx)
+                    finally:
+                        dist.mean = old_mean
+                else:
+                    c2, _ = shifted.regress(y, list(S))
+                    m2 = float(shifted.mse(y, list(S)))
                 rec.count("meta:mean-free")
                 kS_ = float(np.linalg.cond(cf[np.ix_(sorted(set(S)), sorted(set(S)))])) if S else 1.0
                 if float(np.max(np.abs(np.asarray(c2, dtype=float) - coefs))) > 1e3 * EPS * kS_ * (float(np.max(np.abs(coefs))) + 1e-300) \
